@@ -20,6 +20,28 @@ def string_write_rules(prog, rep):
     L, S = wa.L, wa.S
     if not wa.returns:
         raise AnalysisError("BTSString.write has no return statement")
+    # a store into something that outlives the call (a class attribute, a module-level name or an item of one) whose content a
+    # return path reads back: the field handed out then depends on earlier calls, not only on (size, text) - the width a text
+    # was first written with sticks to it
+    fnode = wa.f.node
+    locals_ = {a.arg for a in fnode.args.args + fnode.args.kwonlyargs} | {x.id for x in walk_no_nested(fnode) if isinstance(x, ast.Name) and isinstance(x.ctx, ast.Store)}
+
+    def _outer_base(t):
+        while isinstance(t, (ast.Subscript, ast.Attribute)):
+            t = t.value
+        return t.id if isinstance(t, ast.Name) and t.id not in locals_ else None
+    for st in walk_no_nested(fnode):
+        tg = st.targets[0] if isinstance(st, ast.Assign) and len(st.targets) == 1 else st.target if isinstance(st, (ast.AugAssign, ast.AnnAssign)) else None
+        if isinstance(tg, (ast.Subscript, ast.Attribute)) and _outer_base(tg) is not None:
+            cell = norm(tg.value) if isinstance(tg, ast.Subscript) else norm(tg)
+            back = [r for r in walk_no_nested(fnode) if isinstance(r, ast.Return) and r.value is not None and any(norm(x) == cell for x in ast.walk(r.value))]
+            keyed = isinstance(tg, ast.Subscript) and {wa.size_p, wa.data_p} <= {x.id for x in ast.walk(tg.slice) if isinstance(x, ast.Name)}
+            if back and not keyed:
+                from ..report import DefiniteViolation
+                raise DefiniteViolation("str-width-exact", mod, fq, back[0],
+                                        f"`{norm(head(back[0]))}` hands out a field remembered in `{cell}` (stored by `{norm(head(st))[:60]}`), which outlives the call: "
+                                        "the bytes returned depend on the width of an earlier call, not on this call's size",
+                                        construct=f"{fq} returns from {cell}", props=("C13", "C01", "C02", "C04", "C06", "C10", "C03", "C09"))
     for st in wa.unknown:
         raise AnalysisError(f"BTSString.write: statement not covered by the length algebra: `{norm(head(st))}`")
     # --- refuse-before-return
@@ -90,6 +112,31 @@ def string_write_rules(prog, rep):
             rep.fail("str-strict-codec", mod, fq, c, f"encode uses errors={norm(errs)}: unencodable text is altered instead of refused")
         else:
             rep.ok("str-strict-codec", f"{fq}: strict windows-1252 (UnicodeEncodeError is a ValueError)")
+    # --- the refusal reaches the caller AS a ValueError: no method of the class that calls write() catches it and raises something else
+    for f in wa.cls.all_funcs():
+        calls = [c for c in walk_no_nested(f.node) if isinstance(c, ast.Call) and isinstance(c.func, ast.Attribute) and c.func.attr == "write"
+                 and isinstance(c.func.value, ast.Name) and c.func.value.id in (wa.cls.name, "cls", "self")]
+        if not calls or f is wa.f:
+            continue
+        translated = False
+        for tr in [t for t in walk_no_nested(f.node) if isinstance(t, ast.Try)]:
+            if not any(c is x for c in calls for b in tr.body for x in ast.walk(b)):
+                continue
+            for h in tr.handlers:
+                caught = [norm(x) for x in (h.type.elts if isinstance(h.type, ast.Tuple) else [h.type])] if h.type is not None else ["BaseException"]
+                if not any(c_.split(".")[-1] in VALUE_ERRORS + ("Exception", "BaseException") for c_ in caught):
+                    continue
+                reraises = [r for r in ast.walk(h) if isinstance(r, ast.Raise)]
+                same = bool(reraises) and all(r.exc is None or (isinstance(r.exc, ast.Name) and r.exc.id == h.name)
+                                                or (isinstance(r.exc, ast.Call) and norm(r.exc.func).split(".")[-1] in VALUE_ERRORS) for r in reraises)
+                if not same:
+                    translated = True
+                    rep.fail("str-refuse-before-return", mod, f"{wa.cls.name}.{f.name}", h,
+                             f"the handler `except {', '.join(caught)}` around the call of write() turns its refusal (ValueError for over-long or unencodable text) into "
+                             f"`{norm(head(reraises[0])) if reraises else 'nothing'}`: the text is no longer refused with ValueError",
+                             construct=f"{wa.cls.name}.{f.name} except {', '.join(caught)}")
+        if not translated:
+            rep.ok("str-refuse-before-return", f"{wa.cls.name}.{f.name}: calls write(); its ValueError is not translated on the way out")
 
 
 def run(prog, rep):
